@@ -130,7 +130,18 @@ pub fn run_mem_family(ctx: &Ctx, fam: &MemFamily) -> Stats {
                     // cls == nclasses: no planted unit
                     let positions: Vec<usize> = if cls == nclasses { vec![0] } else { (0..len.max(1)).collect() };
                     for pos in positions {
-                        let (src8, src16) = if u16src {
+                      // second planted unit (ASCII filler only): in the same stride as the first, and
+                      // exactly 16 / 32 / 64 units after it
+                      let mut seconds: Vec<Option<(usize, usize)>> = vec![None];
+                      if fk == 0 && cls < nclasses {
+                          for d in [1usize, 2, 5, 15, 16, 17, 32, 64] {
+                              if pos + d < len && (pos + d) % 3 == cls % 3 {
+                                  seconds.push(Some(((cls * 7 + pos + d) % nclasses, pos + d)));
+                              }
+                          }
+                      }
+                      for second in seconds {
+                        let (mut src8, mut src16) = if u16src {
                             (vec![], if cls == nclasses { memgen::filler16(fk, len) } else { memgen::plant16(fk, len, pos, memgen::PLANT16[cls]) })
                         } else if latin1 {
                             let mut v = memgen::filler8(0, len);
@@ -148,18 +159,42 @@ pub fn run_mem_family(ctx: &Ctx, fam: &MemFamily) -> Stats {
                         } else {
                             (if cls == nclasses { memgen::filler8(fk, len) } else { memgen::plant8(fk, len, pos, memgen::PLANT8[cls]) }, vec![])
                         };
+                        if let Some((c2, p2)) = second {
+                            if u16src {
+                                for (i, u) in memgen::PLANT16[c2].iter().enumerate() {
+                                    if p2 + i < src16.len() {
+                                        src16[p2 + i] = *u;
+                                    }
+                                }
+                            } else if latin1 {
+                                src8[p2] = memgen::PLANT_LATIN1[c2];
+                            } else {
+                                for (i, b) in memgen::PLANT8[c2].iter().enumerate() {
+                                    if p2 + i < src8.len() {
+                                        src8[p2 + i] = *b;
+                                    }
+                                }
+                            }
+                        }
+                        let p2 = second.map(|x| x.1);
                         for (ai, &(sa, da)) in fam.aligns.iter().enumerate() {
+                            if second.is_some() && ai > 1 {
+                                continue;
+                            }
                             let mut base = MemCase { f, src8: src8.clone(), src16: src16.clone(), dst_len: 0, src_align: sa, dst_align: da, fill: [0xA5, 0x00, 0xFF, 0x02][(pos + ai) & 3] };
                             base.sanitise();
                             let n = base.src_len();
                             let dsts: Vec<usize> = if f.is_partial() {
                                 let suff = f.sufficient(n);
                                 let mut d = vec![0, 1, pos, pos + 1, pos + 2, pos + 3, pos + 4, 2 * pos + 1, n.saturating_sub(1), n, n + 1, n + 2, suff.saturating_sub(1), suff];
+                                if let Some(p2) = p2 {
+                                    d.extend_from_slice(&[p2, p2 + 1, p2 + 2, p2 + 3, p2 + 4]);
+                                }
                                 d.retain(|x| *x <= suff + 1);
                                 d.sort();
                                 d.dedup();
                                 if ai > 0 {
-                                    d.retain(|x| *x >= pos && *x <= pos + 4);
+                                    d.retain(|x| (*x >= pos && *x <= pos + 4) || p2.map_or(false, |p2| *x >= p2 && *x <= p2 + 4));
                                 }
                                 d
                             } else {
@@ -186,18 +221,22 @@ pub fn run_mem_family(ctx: &Ctx, fam: &MemFamily) -> Stats {
                                     st.violations.push(fault_to_violation(&min, &flt2));
                                     return;
                                 }
+                                if second.is_some() {
+                                    st.class("two-planted-units");
+                                }
                                 if len == 24 && pos == 9 {
                                     st.sample(1, || c.to_json());
                                 }
                             }
                         }
+                      }
                     }
                 }
             }
         }
     });
     total.merge(st);
-    total.exhaustive.push(format!("per mem function: source lengths 0..={} x 4 fillers x every planted unit class at every position x alignments {:?} x destination lengths around the planted position and the documented size", fam.max_len, fam.aligns));
+    total.exhaustive.push(format!("per mem function: source lengths 0..={} x 4 fillers x every planted unit class at every position (plus, in ASCII filler, a second planted unit 1/2/5/15/16/17/32/64 units later) x alignments {:?} x destination lengths around the planted position and the documented size", fam.max_len, fam.aligns));
     if fw::should_stop() {
         return total;
     }
